@@ -42,16 +42,25 @@ def gen(rng):
     faults = []
     used = set()
     dup = rng.random() < 0.12
+    deeptrash = rng.random() < 0.02
+    if deeptrash:
+        # the home trash lies ~3800 bytes deep (XDG_DATA_HOME on a deeply nested path): info/ can still be created, but
+        # info/<a long name>.trashinfo is longer than PATH_MAX whatever is cut off the NAME to make room for the suffix
+        env['XDG_DATA_HOME'] = home + '/' + '/'.join('x' * 250 + str(k_) for k_ in range(15)) + '/' + 'y' * 150
     for i in range(n):
         vol = rng.choice(['/'] + L['vols'])
+        if deeptrash and i == 0:
+            vol = '/'
         wd = L['work'][vol]
         aux = home + '/aux' if vol == '/' else vol + '/aux'
         cls = rng.choice(['ok', 'ok', 'ok', 'missing', 'dot', 'badutf8', 'immutable', 'rodir', 'emptystr', 'infofail'])
+        if deeptrash and i == 0:
+            cls = 'ok'
         # a '%' or braces in the name must not matter to whatever builds the diagnostics
         sfx = rng.choice(['', '', '', ' 50%', '%s', '%d', '{0}', '%(x)s'])
         nm = 'a%d' % i + sfx
         if cls == 'ok':
-            if rng.random() < 0.12:
+            if rng.random() < 0.12 or (deeptrash and i == 0):
                 # 246-255 bytes of multi-byte characters: '<name>.trashinfo' is too long for the kernel, the name gets shortened
                 nm = rng.choice(['я' * 122, '日' * 83, 'é' * 121, '😀' * 61]) + 'x' * rng.randint(0, 4) + str(i)
             p = wd + '/' + nm
